@@ -89,7 +89,7 @@ impl Property for C14 {
             return Verdict::Pass { nontrivial: false };
         }
         let n = COUNTER.fetch_add(1, std::sync::atomic::Ordering::SeqCst);
-        let root = PathBuf::from(VERIF_ROOT).join("work").join("fs").join(format!("c14-{}-{}", std::process::id(), n));
+        let root = PathBuf::from(VERIF_ROOT.as_str()).join("work").join("fs").join(format!("c14-{}-{}", std::process::id(), n));
         let _ = std::fs::remove_dir_all(&root);
         let base = root.join(&case.base_name);
         let cleanup = |root: &PathBuf| {
